@@ -450,6 +450,37 @@ func (w *wbuild) Drive(s *simrt.Sched, out *RunResult) {
 			}
 			cs.History = append(cs.History, HistOp{Op: "cache-damage", Note: note})
 			shapeParts = append(shapeParts, "damage")
+			if w.g.Features["extfail"] && chance(c, 1, 2, "drift-after-damage") {
+				// place the interesting follow-up right after the loss: a restored dependency whose
+				// blobs may be gone now misbehaves when executed again (slow beyond its timeout /
+				// failing), and one of its dependants changed, so that it needs those outputs
+				var cands [][2]string
+				for _, l := range w.U.Labels() {
+					for _, d := range w.U.DepTargets(w.U.Specs[l]) {
+						if len(w.U.Specs[d].Outs) > 0 {
+							cands = append(cands, [2]string{d, l})
+						}
+					}
+				}
+				if len(cands) > 0 {
+					pr := cands[c.Choose(len(cands), "drift-pair")]
+					snapshots = append(snapshots, w.U.Clone())
+					nu := w.U.Clone()
+					kind := "exit"
+					if nu.Specs[pr[0]].TimeoutMS > 0 {
+						kind = "slow"
+					}
+					nu.Ext["fail_"+pr[0]] = kind
+					nu.Specs[pr[1]].Ver++
+					ed := Edit{Op: "drift-after-damage", Target: pr[0], Detail: kind + "; command of " + pr[1] + " edited"}
+					w.mu.Lock()
+					w.U = nu
+					w.mu.Unlock()
+					w.syncWorkspace(m, nu)
+					cs.History = append(cs.History, HistOp{Op: "edit", Edit: &ed})
+					shapeParts = append(shapeParts, ed.Op)
+				}
+			}
 		case "edit":
 			snapshots = append(snapshots, w.U.Clone())
 			nu, ed := genEdit(c, w.U, w.g, snapshots)
@@ -1083,6 +1114,11 @@ func (w *wbuild) checkBuild(res *InvResult, req BuildReq, opts InvOpts, cm *cach
 			report(prop, "failure-reported-as-success", "exit-0", fmt.Sprintf("targets %v fail (exit status / timeout / missing output / output check) but grog exited 0", failedLabels))
 		}
 		for _, l := range failedLabels {
+			if opts.LoadOutputs == "minimal" && (faulted || (w.fs != nil && w.fs.damaged)) {
+				// a restored dependency that is re-run on behalf of a dependant (its outputs could
+				// not be loaded) and fails is reported under the dependant's name
+				continue
+			}
 			if !opts.FailFast && executed[l] > 0 && !strings.Contains(res.Log, l) {
 				report("C05", "failed-target-not-named", "summary", l+" failed but is not named in the error summary")
 			}
